@@ -1,4 +1,5 @@
 pub mod dir;
+pub mod fuzzrec;
 pub mod hist;
 pub mod macrocases;
 #[cfg(feature = "likely")]
